@@ -403,7 +403,7 @@ def run_shard(desc):
         sh.run_dec_pairs(pairs, False)
     elif kind == "intdec":
         D = dbl_lattice()
-        Ls = L if desc["tier"] == "thorough" else L[::2]
+        Ls = L if desc["tier"] == "thorough" else sorted(set(L[::2] + [0, 1, -1, 2, -2, L[0], L[-1], (1 << 63) - 1, -(1 << 63)]))
         pairs = [(a, y) for a in Ls for y in D] + [(x, b) for x in D for b in Ls]
         sh.run_dec_pairs(pairs, True)
         nb = [2.0 ** 63, -(2.0 ** 63)]
